@@ -688,6 +688,8 @@ func vErrClass(err error) string {
 		return "deadline"
 	case errors.Is(err, ErrShutdownNonEstablished):
 		return "shutdown-nonestablished"
+	case errors.Is(err, ErrShutdownIncomplete):
+		return "shutdown-incomplete"
 	case errors.Is(err, ErrAssociationClosedBeforeConn):
 		return "closed-before-conn"
 	case errors.Is(err, ErrHandshakeInitAck), errors.Is(err, ErrHandshakeCookieEcho):
